@@ -395,6 +395,16 @@ def judge_schematic(case, ctx, prefix):
         must_raise(ctx, prefix, 'negative-value/schematic/R', f'element {pos} with negative R', create_schematic, d)
     d = copy.deepcopy(base); d['elements'].append({'type': 'ground'})
     must_raise(ctx, prefix, 'second-ground/schematic', 'schematic with two ground symbols', create_schematic, d)
+    # the same faults when an analysis is asked for but no annotation is requested (keys absent, or empty lists)
+    for sol in ({'type': 'dc'}, {'type': 'dc', 'voltages': [], 'currents': []}, {'type': 'complex'}):
+        ok = copy.deepcopy(base); ok['solution'] = copy.deepcopy(sol)
+        must_accept(ctx, prefix, 'schematic', f'a valid declarative schematic with solution {sol!r}', create_schematic, ok)
+        d = copy.deepcopy(ok); d['elements'][1]['R'] = -5.0
+        must_raise(ctx, prefix, 'negative-value/schematic/R', f'negative R with solution {sol!r}', create_schematic, d)
+        d = copy.deepcopy(ok); d['elements'].append({'type': 'ground'})
+        must_raise(ctx, prefix, 'second-ground/schematic', f'two ground symbols with solution {sol!r}', create_schematic, d)
+        d = copy.deepcopy(ok); d['elements'][2]['name'] = 'R1'
+        must_raise(ctx, prefix, 'duplicate-id/schematic', f'two elements named R1 with solution {sol!r}', create_schematic, d)
 
 
 def guards(m, tier):
